@@ -705,10 +705,10 @@ def scenario(rng, name, mods=None, nclients=None, cfg=None):
             ops.append("elapse")
     if rng.random() < 0.25:
         # reports asked for in mid-history: they must not disturb anything
-        ops.insert(rng.randint(header_len_ops(ops), len(ops)), inl(rng.choice(["-1 ? :stats", "-1 ? :config", "-1 ? :stats"])))
+        ops.insert(rng.randint(header_len_ops(ops), len(ops)), inl(rng.choice(["-1 ? :stats", "-1 ? :config", "-1 ? :stats", "-1 ? :stats2"])))
         ops = heal_splits(ops)
     if rng.random() < 0.5:
-        ops.append(inl("-1 ? :stats"))
+        ops.append(inl(rng.choice(["-1 ? :stats", "-1 ? :stats", "-1 ? :stats2"])))
     if rng.random() < 0.2:
         ops.append(inl("-1 ? :config"))
     ops.append("eof")
@@ -2077,7 +2077,8 @@ THEOREMS = {
             "Iauthd.Properties.C11_rules_in_name_order", "Iauthd.Properties.C17_rules_session"],
     "C17": ["Iauthd.Properties.C17_delivery", "Iauthd.Properties.C17_rules", "Iauthd.Properties.C17_inherit_same_rules",
             "Iauthd.Properties.C17_timeout", "Iauthd.Properties.C17_services", "Iauthd.Properties.C17_services_fresh",
-            "Iauthd.Properties.C17_rules_fresh", "Iauthd.Properties.C17_config_fresh", "Iauthd.Properties.C17_services_load", "Iauthd.Properties.C17_services_loads",
+            "Iauthd.Properties.C17_rules_fresh", "Iauthd.Properties.C17_config_fresh", "Iauthd.Properties.C17_same_content_silent", "Iauthd.Properties.C17_same_file_twice",
+            "Iauthd.Properties.C17_services_load", "Iauthd.Properties.C17_services_loads",
             "Iauthd.Properties.GoodSec_sortSection", "Iauthd.Properties.C17_rules_load", "Iauthd.Properties.C17_rules_history",
             "Iauthd.Properties.C17_rules_session", "Iauthd.Properties.C17_rules_from_boot", "Iauthd.Proto.runOps_rules",
             "Iauthd.Proto.sortSection_distinct", "Iauthd.Proto.insertCNode_sorted", "Iauthd.Properties.C17_last_rescan",
